@@ -555,9 +555,13 @@ def main_check(pid, tier, seed, replay=None, jobs=None, verbose=False):
         spec_list = [(rp['case'], rp['spec'])]
         _worker_init(pid, rp.get('tier', tier), rp.get('seed', seed), exes)
         _W['args'] = (pid, rp.get('tier', tier), rp.get('seed', seed), exes)
-        res = _worker_batch([(rp['case'], _untuple(rp['spec']))])
         agg = Agg()
-        agg.add(res)
+        # a violation found by the parallel pass depends on thread timing: the replay is attempted up to 12 times
+        for _attempt in range(12 if rp.get('mode') == 'par' else 1):
+            res = _worker_batch([(rp['case'], _untuple(rp['spec']))])
+            agg.add(res)
+            if res['violations']:
+                break
         tier = rp.get('tier', tier)
         seed = rp.get('seed', seed)
     else:
